@@ -7,6 +7,9 @@ import re
 _FN = re.compile(r"^\s{2}(\S+)\(\)\s*$")
 
 
+REPORTS = {}     # signature -> text of the first report with that signature (both stacks), for the replay file
+
+
 def parse_reports(prefix):
     """Return {signature: count} for all reports written under log_path=prefix."""
     sigs = {}
@@ -32,6 +35,7 @@ def parse_reports(prefix):
                 parts.append("%s %s" % (kind.lower().replace("previous ", ""), fn.split("openconfig/gnmi/")[-1]))
             sig = "race: " + " x ".join(sorted(parts))
             sigs[sig] = sigs.get(sig, 0) + 1
+            REPORTS.setdefault(sig, ("WARNING: DATA RACE" + rep)[:8000])
     return sigs
 
 
